@@ -90,7 +90,7 @@ Definition w_short : nv :=
   (mknv (Some (s2l "n")) None (Some (mkinst (Some (s2l "top")) None (Some ((Some (s2l "top")), (Some (s2l "work")))) None)) [(mklib (Some (s2l "work")) None [(mkdefn (Some (s2l "LEAF")) None [(mkport (Some (s2l "a")) None DIn false 1 (0)%Z); (mkport (Some (s2l "b")) None DOut true 2 (0)%Z)] [] []); (mkdefn (Some (s2l "LEAF2")) None [(mkport (Some (s2l "a")) None DIn false 1 (0)%Z); (mkport (Some (s2l "b")) None DOut true 2 (0)%Z)] [] []); (mkdefn (Some (s2l "top")) None [(mkport (Some (s2l "i")) None DIn false 1 (0)%Z)] [(mkcable (Some (s2l "c")) None [[(PIn (Some (s2l "i")) 0); (POut (Some (s2l "u0")) (Some (s2l "a")) 0)]]); (mkcable (Some (s2l "k")) None [[(POut (Some (s2l "u0")) (Some (s2l "b")) 0); (POut (Some (s2l "u1")) (Some (s2l "a")) 0)]; []])] [(mkinst (Some (s2l "u0")) None (Some ((Some (s2l "LEAF")), (Some (s2l "work")))) (Some [[((s2l "identifier"), (PStr (s2l "INIT"))); ((s2l "value"), (PStr (s2l "abc")))]])); (mkinst (Some (s2l "u1")) None (Some ((Some (s2l "LEAF")), (Some (s2l "work")))) None); (mkinst (Some (s2l "SDN_Assignment_7")) None (Some ((Some (s2l "LEAF")), (Some (s2l "work")))) None)])]); (mklib (Some (s2l "aux")) None [])]).
 
 Definition w_noname : nv :=
-  (mknv (Some (s2l "n")) None (Some (mkinst (Some (s2l "top")) None (Some ((Some (s2l "top")), (Some (s2l "work")))) None)) [(mklib (Some (s2l "work")) None [(mkdefn (Some (s2l "LEAF")) None [(mkport (Some (s2l "a")) None DIn false 1 (0)%Z); (mkport (Some (s2l "b")) None DOut true 2 (0)%Z)] [] []); (mkdefn (Some (s2l "LEAF2")) None [(mkport (Some (s2l "a")) None DIn false 1 (0)%Z); (mkport (Some (s2l "b")) None DOut true 2 (0)%Z)] [] []); (mkdefn (Some (s2l "top")) None [(mkport (Some (s2l "i")) None DIn false 1 (0)%Z)] [(mkcable (Some (s2l "c")) None [[(PIn (Some (s2l "i")) 0); (POut None (Some (s2l "a")) 0)]]); (mkcable (Some (s2l "k")) None [[(POut None (Some (s2l "b")) 0); (POut (Some (s2l "u1")) (Some (s2l "a")) 0)]; []])] [(mkinst None None (Some ((Some (s2l "LEAF")), (Some (s2l "work")))) (Some [[((s2l "identifier"), (PStr (s2l "INIT"))); ((s2l "value"), (PStr (s2l "abc")))]])); (mkinst (Some (s2l "u1")) None (Some ((Some (s2l "LEAF")), (Some (s2l "work")))) None)])]); (mklib (Some (s2l "aux")) None [])]).
+  (mknv (Some (s2l "n")) None (Some (mkinst (Some (s2l "top")) None (Some ((Some (s2l "top")), (Some (s2l "work")))) None)) [(mklib (Some (s2l "work")) None [(mkdefn (Some (s2l "LEAF")) None [(mkport (Some (s2l "a")) None DIn false 1 (0)%Z); (mkport (Some (s2l "b")) None DOut true 2 (0)%Z)] [] []); (mkdefn (Some (s2l "LEAF2")) None [(mkport (Some (s2l "a")) None DIn false 1 (0)%Z); (mkport (Some (s2l "b")) None DOut true 2 (0)%Z)] [] []); (mkdefn (Some (s2l "top")) None [(mkport (Some (s2l "i")) None DIn false 1 (0)%Z)] [(mkcable (Some (s2l "c")) None [[(PIn (Some (s2l "i")) 0); (PAnon (Some (s2l "LEAF")) (Some (s2l "work")) (Some (s2l "a")) 0)]]); (mkcable (Some (s2l "k")) None [[(PAnon (Some (s2l "LEAF")) (Some (s2l "work")) (Some (s2l "b")) 0); (POut (Some (s2l "u1")) (Some (s2l "a")) 0)]; []])] [(mkinst None None (Some ((Some (s2l "LEAF")), (Some (s2l "work")))) (Some [[((s2l "identifier"), (PStr (s2l "INIT"))); ((s2l "value"), (PStr (s2l "abc")))]])); (mkinst (Some (s2l "u1")) None (Some ((Some (s2l "LEAF")), (Some (s2l "work")))) None)])]); (mklib (Some (s2l "aux")) None [])]).
 
 Definition w_zero : nv :=
   (mknv (Some (s2l "n")) None (Some (mkinst (Some (s2l "top")) None (Some ((Some (s2l "top")), (Some (s2l "work")))) None)) [(mklib (Some (s2l "work")) None [(mkdefn (Some (s2l "LEAF")) None [(mkport (Some (s2l "a")) None DIn false 1 (0)%Z); (mkport (Some (s2l "b")) None DOut true 2 (0)%Z)] [] []); (mkdefn (Some (s2l "LEAF2")) None [(mkport (Some (s2l "a")) None DIn false 1 (0)%Z); (mkport (Some (s2l "b")) None DOut true 2 (0)%Z)] [] []); (mkdefn (Some (s2l "top")) None [(mkport (Some (s2l "i")) None DIn false 1 (0)%Z); (mkport (Some (s2l "z0")) None DIn false 0 (0)%Z)] [(mkcable (Some (s2l "c")) None [[(PIn (Some (s2l "i")) 0); (POut (Some (s2l "u0")) (Some (s2l "a")) 0)]]); (mkcable (Some (s2l "k")) None [[(POut (Some (s2l "u0")) (Some (s2l "b")) 0); (POut (Some (s2l "u1")) (Some (s2l "a")) 0)]; []])] [(mkinst (Some (s2l "u0")) None (Some ((Some (s2l "LEAF")), (Some (s2l "work")))) (Some [[((s2l "identifier"), (PStr (s2l "INIT"))); ((s2l "value"), (PStr (s2l "abc")))]])); (mkinst (Some (s2l "u1")) None (Some ((Some (s2l "LEAF")), (Some (s2l "work")))) None)])]); (mklib (Some (s2l "aux")) None [])]).
@@ -328,8 +328,14 @@ Proof.
 Qed.
 Lemma w_unnamed_dir_accepted : compare w_unnamed w_unnamed_dir = true. Proof. vm. Qed.
 
-(* netlists that are not accepted against themselves *)
-Lemma w_wild_self : cmp_run w_wild w_wild = Reject. Proof. vm. Qed.
-Lemma w_short_self : cmp_run w_short w_short = IndexErr. Proof. vm. Qed.
-Lemma w_noname_self : cmp_run w_noname w_noname = AttrErr. Proof. vm. Qed.
-Lemma w_zero_self : cmp_run w_zero w_zero = Reject. Proof. vm. Qed.
+(* netlists that were not accepted against themselves before the repairs of the lookups (exact
+   names), of the assignment-name test (four fields), of the None-safe getters and of
+   compare_ports (no 'DRC' assert): regression cases *)
+Lemma w_wild_self : cmp_run w_wild w_wild = Accept. Proof. vm. Qed.
+Lemma w_short_self : cmp_run w_short w_short = Accept. Proof. vm. Qed.
+Lemma w_noname_self : cmp_run w_noname w_noname = Accept. Proof. vm. Qed.
+Lemma w_zero_self : cmp_run w_zero w_zero = Accept. Proof. vm. Qed.
+Lemma w_wild_wf : wf_named w_wild. Proof. vm. Qed.
+Lemma w_short_wf : wf_named w_short /\ no_asg w_short. Proof. split; vm. Qed.
+Lemma w_zero_wf : wf_named w_zero. Proof. vm. Qed.
+Lemma w_noname_not_named : wf_namedb w_noname = false. Proof. vm. Qed.
